@@ -106,7 +106,13 @@ def C06 : List (String × String) := [
   ("node/kafkaconsumer/kafkaconsumer.go:KafkaConsumer.retryAssignPartitions", "4e602aa7e64d"),
   ("node/kafkaconsumer/kafkaconsumer.go:KafkaConsumer.revokePartitionAssignments", "4fb96ae21207"),
   ("node/kafkaconsumer/recoveryconsumer.go:.NewRecoveryConsumer", "62f4ec448a2b"),
-  ("node/kafkaconsumer/recoveryconsumer.go:RecoveryConsumer.RequestRecovery", "b2e0f12c8617")
+  ("node/kafkaconsumer/recoveryconsumer.go:RecoveryConsumer.RequestRecovery", "b2e0f12c8617"),
+  ("node/kafkaconsumer/recoverytracker.go:.NewRecoveryTracker", "f0d768ba1cb9"),
+  ("node/kafkaconsumer/recoverytracker.go:RecoveryTracker.AddRecoveryRequest", "7827886d88ba"),
+  ("node/kafkaconsumer/recoverytracker.go:RecoveryTracker.MarkRecoveryComplete", "f6674f9ecbcf"),
+  ("node/kafkaconsumer/recoverytracker.go:RecoveryTracker.UpdateRecoveryRequest", "9ff3765c18ae"),
+  ("node/kafkaconsumer/recoverytracker.go:RecoveryTracker.cancelAll", "dbf023086b78"),
+  ("node/kafkaconsumer/recoverytracker.go:RecoveryTracker.receiveRequest", "917ada5b6d22")
 ]
 
 def C07 : List (String × String) := [
@@ -135,6 +141,12 @@ def C08 : List (String × String) := [
   ("executor/message.go:.newContextMessage", "b1824b34ff9c"),
   ("executor/message.go:.newMessage", "290b91039fb5"),
   ("message/kafkamessagesender.go:KafkaMessageSender.produceMessage", "7bc7f382ec20"),
+  ("message/kakfamessagereceiver.go:.NewKafkaReceiver", "dc9caeb7b203"),
+  ("message/kakfamessagereceiver.go:KafkaMessageReceiver.handleEvents", "c63b83c25818"),
+  ("message/kakfamessagereceiver.go:KafkaMessageReceiver.processEvent", "c25d5aae881c"),
+  ("message/kakfamessagereceiver.go:KafkaMessageReceiver.processInitBuffer", "fb4778a52ab4"),
+  ("message/kakfamessagereceiver.go:KafkaMessageReceiver.processMessage", "fe10f8941785"),
+  ("metrics/metrics.go:Metrics.registerMessageMetrics", "5f3cd60433cc"),
   ("node/kafkaconsumer/kafkaconsumer.go:KafkaConsumer.Receive", "066d20d95c6b"),
   ("node/kafkaconsumer/kafkaconsumer.go:KafkaConsumer.Setup", "9cf71b697938"),
   ("node/kafkaconsumer/recoveryconsumer.go:.NewRecoveryConsumer", "62f4ec448a2b"),
@@ -155,6 +167,11 @@ def C09 : List (String × String) := [
   ("executor/message.go:.newMessage", "290b91039fb5"),
   ("message/kafkamessagesender.go:KafkaMessageSender.produceMessage", "7bc7f382ec20"),
   ("message/kakfamessagereceiver.go:.NewKafkaReceiver", "dc9caeb7b203"),
+  ("message/kakfamessagereceiver.go:KafkaMessageReceiver.handleEvents", "c63b83c25818"),
+  ("message/kakfamessagereceiver.go:KafkaMessageReceiver.processEvent", "c25d5aae881c"),
+  ("message/kakfamessagereceiver.go:KafkaMessageReceiver.processInitBuffer", "fb4778a52ab4"),
+  ("message/kakfamessagereceiver.go:KafkaMessageReceiver.processMessage", "fe10f8941785"),
+  ("metrics/metrics.go:Metrics.registerMessageMetrics", "5f3cd60433cc"),
   ("node/kafkaconsumer/consumermetrics.go:Metrics.RegisterConsumerMetrics", "bf44d339cad3"),
   ("node/kafkaconsumer/kafkaconsumer.go:KafkaConsumer.Receive", "066d20d95c6b"),
   ("node/kafkaconsumer/kafkaconsumer.go:KafkaConsumer.Setup", "9cf71b697938"),
@@ -266,6 +283,7 @@ def C13 : List (String × String) := [
 
 def C14 : List (String × String) := [
   ("event.go:.NewAsyncEvent", "45ee2ce200ca"),
+  ("metrics/metrics.go:Metrics.registerNodeMetrics", "f4d4c8ad6eb3"),
   ("node/elasticsearch/elastic_index_client.go:.NewElasticIndexClient", "807dedd4edbc"),
   ("node/elasticsearch/elastic_index_client.go:ElasticIndexClient.Run", "3fcf2a804898"),
   ("node/elasticsearch/elastic_index_client.go:ElasticIndexClient.Send", "9cc6a8058bbe"),
@@ -277,7 +295,9 @@ def C14 : List (String × String) := [
   ("node/elasticsearch/elasticsearch.go:Elasticsearch.ProcessAsync", "d4140726be01"),
   ("node/elasticsearch/elasticsearch.go:Elasticsearch.Setup", "00f0a171ab12"),
   ("node/elasticsearch/elasticsearch.go:Elasticsearch.Shutdown", "3a84f9ac1e21"),
-  ("node/elasticsearch/metrics.go:Metrics.RegisterElasticIndexMetrics", "1ad5646f13be")
+  ("node/elasticsearch/metrics.go:Metrics.RegisterElasticIndexMetrics", "1ad5646f13be"),
+  ("node/node.go:.InitNodeContextHierarchy", "49e126bee875"),
+  ("node/node.go:Context.invokeProcessorAsync", "bf5ad9453a5d")
 ]
 
 def C15 : List (String × String) := [
@@ -285,13 +305,16 @@ def C15 : List (String × String) := [
   ("error.go:.NewFBError", "88edeaca888f"),
   ("error.go:EventError.MarshalJSON", "1c42234484c4"),
   ("message/kafkamessagesender.go:KafkaMessageSender.produceMessage", "7bc7f382ec20"),
+  ("metrics/metrics.go:Metrics.registerNodeMetrics", "f4d4c8ad6eb3"),
   ("node/kafkaproducer/errorproducer.go:ErrorProducer.Process", "934e2c476ae6"),
   ("node/kafkaproducer/kafkaproducer.go:KafkaProducer.Process", "15b714a1ced4"),
   ("node/kafkaproducer/kafkaproducer.go:KafkaProducer.Produce", "84777a6f832c"),
   ("node/kafkaproducer/kafkaproducer.go:KafkaProducer.Setup", "9f1e87fec2b4"),
   ("node/kafkaproducer/kafkaproducer.go:KafkaProducer.Shutdown", "2d6e4c8e0602"),
   ("node/kafkaproducer/kafkaproducer.go:KafkaProducer.startEventsReceiver", "831565848a35"),
-  ("node/kafkaproducer/kafkaproducer.go:KafkaProducer.stop", "8f54a35d86cd")
+  ("node/kafkaproducer/kafkaproducer.go:KafkaProducer.stop", "8f54a35d86cd"),
+  ("node/node.go:.InitNodeContextHierarchy", "49e126bee875"),
+  ("node/node.go:Context.handleFailure", "d5c24af5db77")
 ]
 
 def C16 : List (String × String) := [
@@ -322,10 +345,13 @@ def C17 : List (String × String) := [
   ("message/kafkamessagesender.go:.NewKafkaMessageSender", "b921314203c4"),
   ("message/kafkamessagesender.go:KafkaMessageSender.Shutdown", "3bb54677eaa7"),
   ("message/kafkamessagesender.go:KafkaMessageSender.produceMessage", "7bc7f382ec20"),
+  ("message/kakfamessagereceiver.go:.NewKafkaReceiver", "dc9caeb7b203"),
+  ("message/kakfamessagereceiver.go:KafkaMessageReceiver.Shutdown", "fa4e2b6b4c5c"),
   ("message/message.go:.GetSender", "e537de88e36d"),
   ("message/message.go:.InitKafkaSender", "31ee076b2d27"),
   ("message/message.go:.ShutdownKafkaSender", "90e0dcf0631f"),
   ("metrics/metrics.go:Metrics.registerNodeMetrics", "f4d4c8ad6eb3"),
+  ("node/kafkaconsumer/recoveryconsumer.go:.NewRecoveryConsumer", "62f4ec448a2b"),
   ("node/kafkaproducer/kafkaproducer.go:KafkaProducer.Setup", "9f1e87fec2b4"),
   ("node/kafkaproducer/kafkaproducer.go:KafkaProducer.Shutdown", "2d6e4c8e0602"),
   ("node/kafkaproducer/kafkaproducer.go:KafkaProducer.stop", "8f54a35d86cd"),
@@ -341,7 +367,11 @@ def C18 : List (String × String) := [
   ("leader/leader.go:.NewLeader", "2f84d6a591e6"),
   ("leader/leader.go:Leader.stopElection", "3da372feaace"),
   ("leader/leader.go:Leader.updateLeadership", "8fa7538a9eed"),
+  ("message/kakfamessagereceiver.go:.NewKafkaReceiver", "dc9caeb7b203"),
   ("metrics/metrics.go:Metrics.registerNodeMetrics", "f4d4c8ad6eb3"),
+  ("node/kafkaconsumer/kafkaconsumer.go:KafkaConsumer.Setup", "9cf71b697938"),
+  ("node/kafkaconsumer/kafkaconsumer.go:KafkaConsumer.revokePartitionAssignments", "4fb96ae21207"),
+  ("node/kafkaconsumer/recoveryconsumer.go:.NewRecoveryConsumer", "62f4ec448a2b"),
   ("node/node.go:.InitNodeContextHierarchy", "49e126bee875"),
   ("node/registry.go:Registry.InstantiateSource", "e04754230c24"),
   ("node/registry.go:Registry.RegisterNodeType", "dca01f35809b"),
@@ -354,6 +384,7 @@ def C19 : List (String × String) := [
   ("metrics/metrics.go:Metrics.registerSourceMetrics", "7682ab4ef90e"),
   ("node/kafkaconsumer/consumermetrics.go:Metrics.RegisterConsumerMetrics", "bf44d339cad3"),
   ("node/kafkaconsumer/kafkaconsumer.go:KafkaConsumer.Setup", "9cf71b697938"),
+  ("node/kafkaconsumer/kafkaconsumer.go:KafkaConsumer.Start", "3835994f3828"),
   ("node/kafkaconsumer/kafkaconsumer.go:KafkaConsumer.processEvent", "8346c15b4ebf"),
   ("node/kafkaconsumer/kafkaconsumer.go:KafkaConsumer.revokePartitionAssignments", "4fb96ae21207"),
   ("node/kafkaconsumer/recoveryconsumer.go:.NewRecoveryConsumer", "62f4ec448a2b"),
@@ -363,12 +394,17 @@ def C19 : List (String × String) := [
 ]
 
 def C20 : List (String × String) := [
+  ("executor/executor.go:.WithConfig", "2ba7d58d1309"),
+  ("executor/executor.go:Executor.prepareSource", "e44671e72cf8"),
   ("helpers.go:Nodeconfig.Float64Config", "a2941f1af94b"),
   ("helpers.go:Nodeconfig.Float64ConfigRequired", "6193437df913"),
   ("helpers.go:Nodeconfig.IntConfig", "22db55006c57"),
   ("helpers.go:Nodeconfig.IntConfigRequired", "376b517adb59"),
   ("helpers.go:Nodeconfig.StringConfig", "7a3b09fce505"),
   ("helpers.go:Nodeconfig.StringConfigRequired", "de937f7d3692"),
+  ("leader/leader.go:.NewLeader", "2f84d6a591e6"),
+  ("leader/leader.go:Leader.stopElection", "3da372feaace"),
+  ("leader/leader.go:Leader.updateLeadership", "8fa7538a9eed"),
   ("message/kakfamessagereceiver.go:.NewKafkaReceiver", "dc9caeb7b203"),
   ("message/kakfamessagereceiver.go:KafkaMessageReceiver.buildConfigMap", "2453683d9155"),
   ("node/kafkaconsumer/kafkaconsumer.go:KafkaConsumer.Setup", "9cf71b697938"),
